@@ -193,7 +193,8 @@ SERVLET_CTORS += [ProcessServletInit, ProcessServletInitInt, ProcessServletInitL
 STREAM_CTORS = [
     stores('C01', F_STREAM, 'ParmapperAsync.__init__', ['instream', 'func', 'concurrency', 'return_x', 'return_exceptions', 'preprocessor', 'parmapper_name', 'async_context'],
            {'_instream': 'instream', '_func': 'func', '_func_kwargs': ('pack',), '_return_x': 'return_x', '_return_exceptions': 'return_exceptions', '_preprocessor': 'preprocessor',
-            '_concurrency': ('expr', lambda P: _truthy_or(P, 'concurrency', V.intv(z3.IntVal(128)))), '_name': 'parmapper_name'},
+            '_concurrency': ('expr', lambda P: _truthy_or(P, 'concurrency', V.intv(z3.IntVal(128)))), '_name': 'parmapper_name',
+            '_fifo_capacity': ('expr', lambda P: V.intv(2 * V.ival(_truthy_or(P, 'concurrency', V.intv(z3.IntVal(128))))))},
            pack='kwargs', numeric=True, asserts_hold=lambda P: z3.Or(P['concurrency'] == NONE, z3.And(V.is_intv(P['concurrency']), V.ival(P['concurrency']) >= 1)),
            canaries_=(('return_x / return_exceptions swapped', 'self._return_x = return_x\n        self._return_exceptions = return_exceptions', 'self._return_x = return_exceptions\n        self._return_exceptions = return_x', ''),)),
     stores('C16', F_STREAM_A, 'AsyncParmapperAsync.__init__', ['instream', 'func', 'concurrency', 'return_x', 'return_exceptions', 'preprocessor', 'parmapper_name'],
